@@ -40,6 +40,10 @@ def _run_own(ctx, chk):
             chk.require(f["vis"] != "Public", "C07-a/private", "Feig." + f["name"],
                         "field is public: callers could edit the token map behind the client's back",
                         f["vis"].split("~")[-1], adt.get("sp"))
+    # (the clean-up that empties the map is cancel_pending on the pinned tree; written out in end_of_day it is that function)
+    allowed = dict(ALLOWED)
+    if (FEIG + "cancel_pending") not in crate.bodies and (FEIG + "cancel_pending::{closure#0}") not in crate.bodies:
+        allowed["clear"] = {"end_of_day"}
     writers = {}
     for b in crate.bodies.values():
         ex = None
@@ -65,10 +69,10 @@ def _run_own(ctx, chk):
                         writers.setdefault("assign", []).append((short_fn(b), st.get("sp")))
     for meth, ws in sorted(writers.items()):
         for fn, sp in ws:
-            chk.require(fn in ALLOWED.get(meth, set()), "C07-a/who-may-write", "%s in %s" % (meth, fn),
-                        "Feig.transactions is mutated by `%s` in %s; allowed: %s" % (meth, fn, sorted(ALLOWED.get(meth, []))),
+            chk.require(fn in allowed.get(meth, set()), "C07-a/who-may-write", "%s in %s" % (meth, fn),
+                        "Feig.transactions is mutated by `%s` in %s; allowed: %s" % (meth, fn, sorted(allowed.get(meth, []))),
                         "allowed", sp)
-    for meth, fns in ALLOWED.items():
+    for meth, fns in allowed.items():
         for fn in fns:
             chk.require(any(w[0] == fn for w in writers.get(meth, [])), "C07-a/writer-present", "%s in %s" % (meth, fn),
                         "expected map %s in %s not found (anchor missing)" % (meth, fn), "", nontrivial=False)
@@ -235,7 +239,8 @@ def clear_only_when_idle(chk, crate):
             if fn not in clears and cs & clears:
                 clears.add(fn)
                 changed = True
-    chk.require("cancel_pending" in clears, "C07-a/clear-anchor", "cancel_pending", "the whole-map clear was not found (anchor)", "",
+    chk.require("cancel_pending" in clears or "end_of_day" in clears, "C07-a/clear-anchor", "cancel_pending",
+                "the whole-map clear was not found (anchor)", "",
                 nontrivial=False)
     for name in ("begin_transaction", "commit_transaction", "cancel_transaction"):
         f = Fn(crate, name)
